@@ -58,6 +58,34 @@ pub fn replay_bfs<const N: usize>(c: &Case) -> Result<i32, String> {
     Ok(if sel.is_empty() { 0 } else { 1 })
 }
 
+/// Replay of a plain transition, reporting the given judgement kinds (incl. the final drop).
+pub fn replay_generic<const N: usize>(c: &Case, kinds: &[PKind]) -> Result<i32, String> {
+    let recipe = Recipe::parse(&c.ctor, &c.recipe).ok_or("bad recipe")?;
+    let act = Act::parse(&c.act).ok_or("bad action")?;
+    let filling = parse_filling(&c.filling).ok_or("bad filling")?;
+    let fault = parse_fault(&c.fault).ok_or("bad fault")?;
+    let tr = transition::<N>(&recipe, &filling, &act, fault);
+    println!("property {}  N={}  state <{}>  slots [{}]", c.prop, N, recipe.show(), show_classes(&tr.rec.pre));
+    println!("action: {}", act);
+    println!(
+        "observed: {}  contents after: {}",
+        if tr.rec.panicked { format!("PANIC {}", tr.rec.panic_msg) } else { model::show_trace(&tr.rec.trace) },
+        model::show_tags(&tr.rec.post_tags)
+    );
+    println!("events: {}", tr.rec.events.iter().map(|e| e.show()).collect::<Vec<_>>().join(", "));
+    println!("model: {} {:?}", if tr.exp.panics { "PANIC".to_string() } else { model::show_trace(&tr.exp.trace) }, tr.exp.post);
+    let mut code = 0;
+    for p in tr.problems.iter().filter(|p| kinds.contains(&p.kind)) {
+        println!("VIOLATION REPRODUCED: [{}] {}", p.kind.name(), p.detail);
+        code = 1;
+    }
+    for p in tr.final_problems.iter() {
+        println!("VIOLATION REPRODUCED: [{}@final-drop] {}", p.kind.name(), p.detail);
+        code = 1;
+    }
+    Ok(code)
+}
+
 pub struct Opts {
     pub tier: String,
     pub shard: (usize, usize),
